@@ -198,7 +198,7 @@ func (g *Gen) strs() []any {
 	return out
 }
 
-var mapKeys = []string{"k1", "k2", "application/json", "X-Hdr", "text/plain"}
+var mapKeys = []string{"k1", "k2", "application/json", "X-Hdr", "text/plain", "x-k", "x-rate-limit"}
 
 func (g *Gen) keys(min int) []string {
 	n := rapid.IntRange(min, 2).Draw(g.T, "nkeys")
